@@ -69,6 +69,26 @@ fn build_operand(r: &mut Rng, out: &mut String, slot: usize, keys: &[u64], pool:
             }
             Operand { slot, heavy: true, empty: false }
         }
+        87..=91 => {
+            // a FULL chunk (65536 values), or one a few values short of it, or one of two halves that are full only
+            // together (evens / odds): xor and sub then start from / reach a completely full running chunk
+            writeln!(out, "new {}", b).unwrap();
+            match r.below(5) {
+                0 | 1 => writeln!(out, "insert_range {} in:{} in:{}", b, k, k + 65535).unwrap(),
+                2 => {
+                    writeln!(out, "insert_range {} in:{} in:{}", b, k, k + 65535).unwrap();
+                    for _ in 0..r.range(1, 3) {
+                        writeln!(out, "remove {} {}", b, k + *r.pick(&[0u64, 1, 63, 64, 4096, 40000, 65534, 65535])).unwrap();
+                    }
+                }
+                h => {
+                    // evens (h == 3) or odds (h == 4) of the whole chunk
+                    let byte = if h == 3 { "55" } else { "aa" };
+                    writeln!(out, "from_lsb0 {} {} hex:{}", b, k, byte.repeat(8192)).unwrap();
+                }
+            }
+            Operand { slot, heavy: true, empty: false }
+        }
         _ => {
             // identical to an earlier operand
             if pool.is_empty() {
